@@ -488,6 +488,13 @@ def judge(prop, tier, seed, runs, meta, t0, floors=None, extra_cov=None, extra_v
                processes=len(runs), violations_of_other_properties_ignored=foreign)
     if meta.get("exhaustive_note"):
         cov["exhaustive_subspace"] = meta["exhaustive_note"]
+    # level-specific keys computed from named counters (e.g. model_checking: states/transitions)
+    for key, names in (meta.get("cov_map") or {}).items():
+        tot = 0
+        for pm in per_monitor.values():
+            for nm in names:
+                tot += pm["counters"].get(nm, 0)
+        cov[key] = int(tot)
     if extra_cov:
         cov.update(extra_cov)
     ev = dict(property_id=prop, tier=tier, seed=int(seed), level=meta["level"], coverage=cov,
